@@ -248,6 +248,7 @@ fn table() -> Vec<W> {
             Err(e) => Dec0::Err(e.code.map(|c| c.raw())),
         }),
         w!("fcntl_set_file_status", Unit, "FCNTL", unit(u::fcntl_set_file_status(fd(3), OpenFlags::O_NONBLOCK))),
+        w!("fcntl_dup_fd_cloexec", Fd, "FCNTL", fdr(u::fcntl_dup_fd_cloexec(fd(3), fd(3)))),
         w!("get_dents", Count, "GETDENTS64", {
             let mut b = [0u8; 64];
             count(u::get_dents(fd(3), &mut b))
